@@ -41,6 +41,8 @@ def plan(tier, seed):
         jobs += partnames.jobs("C07", tier)
     except ImportError:
         pass
+    jobs.append(dict(name="C07-lemma-append-dtype-pairs", kind="pyfunc", timeout=600,
+                     payload=dict(func="vf.pyshim.lemma_append:append_dtype_pairs")))
     extra = dict(
         explanation="Single file: the real write_simple append branch on a symbolic file (data length, old/new footer "
                     "length, row-group sizes symbolic): the old length field is read from its place, every write "
